@@ -1,6 +1,6 @@
 #!/usr/bin/env python3
 """Regenerates MANIFEST.json from the table below (keeps it valid at all times)."""
-import json, os
+import json, os, subprocess
 V = os.path.dirname(os.path.dirname(os.path.abspath(__file__)))
 props = [json.loads(l) for l in open(os.path.join(V, "properties.jsonl"))]
 CLAIMED = json.load(open(os.path.join(V, "tools", "claims.json")))
@@ -29,7 +29,7 @@ m = {
         "guard": "ROOTSIM_VERIF",
         "enable": "harnesses are compiled by tools/vlib.py straight from /repo/src with -DROOTSIM_VERIF -DNDEBUG (gcc/mpicc, ASan+UBSan); no cmake involved",
         "baseline_off_cmd": "d=$(mktemp -d /tmp/verif_baseline.XXXXXX) && cmake -G Ninja -S /repo -B $d -DCMAKE_BUILD_TYPE=RelWithDebInfo >/dev/null && cmake --build $d >/dev/null && ctest --test-dir $d -j8 --timeout 900; rc=$?; rm -rf $d; exit $rc",
-        "source_commits": json.load(open(os.path.join(V, "tools", "hook_commits.json"))),
+        "source_commits": subprocess.check_output(["git", "-C", "/repo", "log", "--reverse", "--format=%h", "--grep=^verif hook"]).decode().split(),
         "add_only": True,
     },
     "engines": [{"name": "lean4-proof+kdiff", "path": "tools/check.py",
